@@ -1,7 +1,8 @@
 (* LangUnfold — one-step unfolding of Lang.eval / exec / exec_loop / exec_block.
 
    The evaluator of Lang.v is one mutual Fixpoint on fuel with nested local fixes.  For the
-   proofs the body of each function is restated here in open-recursion style (the recursive
+   proofs the body of each function is restated here in open-recursion style (on top of Lang.v's own
+   list-level helpers evals_with / indices_with / mutate_with / stmts_with) (the recursive
    calls at fuel n become the parameters [ev ex el eb]); the four unfolding lemmas are proved
    by [reflexivity], i.e. the restatement is checked by the kernel to be CONVERTIBLE with
    Lang.v's text — it is not a second model.  All later proofs are by induction on fuel,
@@ -21,71 +22,6 @@ Variable ev : expr -> st -> M (value * st).
 Variable ex : stmt -> st -> M (flow * st).
 Variable el : expr -> list stmt -> st -> M (flow * st).
 Variable eb : list stmt -> st -> M (flow * st).
-
-Fixpoint evals_f (es : list expr) (s : st) : M (list value * st) :=
-  match es with
-  | [] => OkM ([], s)
-  | e :: r => do (v, s1) <- ev e s; do (vs, s2) <- evals_f r s1; OkM (v :: vs, s2)
-  end.
-
-Fixpoint eval_indices_f (es : list expr) (s : st) : M (list Z * st) :=
-  match es with
-  | [] => OkM ([], s)
-  | e :: r => do (v, s1) <- ev e s; do i <- lift (index_value v);
-              do (is, s2) <- eval_indices_f r s1; OkM (i :: is, s2)
-  end.
-
-Definition mutate_f (o : expr) (op : mutop) (s : st) : M (value * st) :=
-  match o with
-  | EVar vn vl =>
-      match lookup_env vl vn (env s) with
-      | None => PanicM PMutVarMissing
-      | Some root =>
-          do (root', r) <- lift (mutate_path root [] op);
-          match assign_env vl vn root' (env s) with
-          | Some e' => OkM (r, with_env e' s)
-          | None => PanicM PMutVarMissing
-          end
-      end
-  | EIdx _ _ =>
-      match flatten_target o [] with
-      | None => ErrM TypeMis
-      | Some (vn, vl, idx_exprs) =>
-          do (path, s1) <- eval_indices_f idx_exprs s;
-          match lookup_env vl vn (env s1) with
-          | None => PanicM PMutVarMissing
-          | Some root =>
-              do (root', r) <- lift (mutate_path root path op);
-              match assign_env vl vn root' (env s1) with
-              | Some e' => OkM (r, with_env e' s1)
-              | None => PanicM PMutVarMissing
-              end
-          end
-      end
-  | _ => ErrM TypeMis
-  end.
-
-Definition interp_go (s : st) : list seg -> M (list Z) :=
-  fix go (segs : list seg) : M (list Z) :=
-  match segs with
-  | [] => OkM []
-  | SegLit b :: r => do rest <- go r; OkM (b ++ rest)
-  | SegVar vn vl :: r =>
-      match lookup_env vl vn (env s) with
-      | None => PanicM PSegVar
-      | Some v => do rest <- go r; OkM (display v ++ rest)
-      end
-  end.
-
-Definition mk_params (fd : fdef) : list name -> list value -> Z -> list slot -> list slot :=
-  fix mk (ps : list name) (vs : list value) (k : Z) (acc : list slot) : list slot :=
-  match ps, vs with
-  | p :: ps', v :: vs' =>
-      mk ps' vs' (k + 1)
-         ({| s_id := match f_id fd with Some _ => Some (f_lstart fd + k) | None => None end;
-             s_name := p; s_val := v |} :: acc)
-  | _, _ => acc
-  end.
 
 Definition string_call (str : list Z) (f : name) (args : list expr) (s1 : st) : M (value * st) :=
   if negb (mem_name f string_methods) then ErrM TypeMis
@@ -169,10 +105,10 @@ Definition member_call (o : expr) (f : name) (args : list expr) (s : st) : M (va
     if bytes_eqb f n_push then
       match args with
       | [] => PanicM PArgIndex
-      | a0 :: _ => do (v, s1) <- ev a0 s; mutate_f o (MPush v) s1
+      | a0 :: _ => do (v, s1) <- ev a0 s; mutate_with ev o (MPush v) s1
       end
-    else if bytes_eqb f n_pop then mutate_f o MPop s
-    else mutate_f o MReverse s
+    else if bytes_eqb f n_pop then mutate_with ev o MPop s
+    else mutate_with ev o MReverse s
   else if mem_name f proc_mut_names then UnsuppM
   else
     do (recv, s1) <- ev o s;
@@ -189,13 +125,13 @@ Definition user_call (fname : name) (args : list expr) (target : option Z) (s : 
   match lookup_fn target fname (fns s) with
   | None => PanicM PFuncMissing
   | Some fd =>
-      do (vs, s1) <- evals_f args s;
+      do (vs, s1) <- evals_with ev args s;
       if negb (Nat.eqb (length vs) (length (f_params fd))) then PanicM PArgCount
       else if (match f_id fd with
                | Some _ => f_llen fd <? Z.of_nat (length (f_params fd))
                | None => false end) then PanicM PParamRange
       else
-        let s2 := push_scope (mk_params fd (f_params fd) vs 0 []) s1 in
+        let s2 := push_scope (bind_params (f_id fd) (f_lstart fd) (f_params fd) vs 0 []) s1 in
         do (fl, s3) <- eb (f_body fd) s2;
         let s4 := pop_scope s3 in
         match fl with
@@ -206,7 +142,7 @@ Definition user_call (fname : name) (args : list expr) (target : option Z) (s : 
   end.
 
 Definition builtin_call (g : gbuiltin) (args : list expr) (s : st) : M (value * st) :=
-  do (vs, s1) <- evals_f args s;
+  do (vs, s1) <- evals_with ev args s;
   match vs with
   | [v] =>
       match g with
@@ -222,7 +158,7 @@ Definition eval_body (e : expr) (s : st) : M (value * st) :=
   match e with
   | ENum x => OkM (VNum x, s)
   | EStr b => OkM (VStr b, s)
-  | EInterp segs => do b <- interp_go s segs; OkM (VStr b, s)
+  | EInterp segs => do b <- lift (interp_segs (env s) segs); OkM (VStr b, s)
   | EBool b => OkM (VBool b, s)
   | ENull => OkM (VNull, s)
   | EVar vn vl =>
@@ -264,7 +200,7 @@ Definition eval_body (e : expr) (s : st) : M (value * st) :=
       | Neg, VNum x => OkM (VNum (fneg x), s1)
       | _, _ => ErrM TypeMis
       end
-  | EArr es => do (vs, s1) <- evals_f es s; OkM (VArr vs, s1)
+  | EArr es => do (vs, s1) <- evals_with ev es s; OkM (VArr vs, s1)
   | EIdx a i =>
       do (av, s1) <- ev a s;
       do (iv, s2) <- ev i s1;
@@ -310,7 +246,7 @@ Definition exec_body (t : stmt) (s : st) : M (flow * st) :=
       match flatten_target target [] with
       | None => ErrM TypeMis
       | Some (vn, vl, idx_exprs) =>
-          do (path, s2) <- eval_indices_f idx_exprs s1;
+          do (path, s2) <- indices_with ev idx_exprs s1;
           match lookup_env vl vn (env s2) with
           | None => PanicM PMutVarMissing
           | Some root =>
@@ -348,22 +284,9 @@ Definition loop_body (c : expr) (body : list stmt) (s : st) : M (flow * st) :=
     | FReturn v => OkM (FReturn v, s2)
     end.
 
-Fixpoint block_go (ts : list stmt) (s : st) : M (flow * st) :=
-  match ts with
-  | [] => OkM (FNormal, pop_scope s)
-  | t :: r =>
-      if in_plan_stmt P (stmt_sid t) then block_go r s
-      else
-        do (fl, s') <- ex t s;
-        match fl with
-        | FNormal => block_go r s'
-        | _ => OkM (fl, pop_scope s')
-        end
-  end.
-
 Definition block_body (b : list stmt) (s : st) : M (flow * st) :=
   do s1 <- lift (hoist P b (push_scope [] s));
-  block_go b s1.
+  stmts_with P ex b s1.
 
 End Bodies.
 
